@@ -286,7 +286,7 @@ pub struct Strs {
 }
 impl Strs {
     pub fn new(t: Tier) -> Strs {
-        Strs { maxlen: t.pick(2, 3) }
+        Strs { maxlen: t.pick(2, 4) }
     }
     fn k(&self) -> u64 {
         (CHARS.len() * ESCS.len()) as u64
